@@ -12,6 +12,10 @@ import ClarabelModel.ProblemData
 import ClarabelProofs.Lemmas.Presolve
 import ClarabelProofs.Lemmas.PresolveCollapse
 import ClarabelProofs.Lemmas.PresolveSpec
+import ClarabelProofs.Lemmas.PresolveInfCapture
+import ClarabelProofs.Lemmas.PresolveHandReduce
+import ClarabelProofs.Lemmas.PresolveSolveTransparent
+import ClarabelProofs.Lemmas.PresolveTransparent
 import ClarabelProofs.Props.C16
 import ClarabelProofs.Lemmas.ScalarInst
 import Mathlib.Algebra.Order.Field.Basic
@@ -372,6 +376,203 @@ theorem bound_history (dflt : α) (pre post : List (InfOp α)) :
   rw [he]
   simp [InfWorld.step]
 
+/-- [S] **capture at construction** (`DefaultProblemData::new`, either value of the chordal
+switch): every use of the module-level bound by the constructed object is the value `inf` read
+at construction — the presolver record stores `inf` (what `reverse_presolve` later writes into
+the dropped rows of `s`) together with `mfull = |b|` and the keep vector computed with
+`threshold inf` on the collapsed cone list, and the internal `b` is `min(·, inf)` of the selected
+rows (all rows when no presolver was recorded).  Nothing in the object refers to the global
+again, so later `set_infinity` / `default_infinity` calls cannot affect it. -/
+theorem bound_captured_at_construction [Add α] [Sub α] [Mul α] [Div α] [OfNat α 0] [OfNat α 1] [LT α]
+    [DecidableLT α] [FloatLike α] (P : Csc α) (q : Array α) (A : Csc α) (b : Array α)
+    (cones : List (ConeT α)) (presolve chordal : Bool) (inf : α) (d : ProblemData α)
+    (h : ProblemData.new P q A b cones presolve chordal inf = .ok d) :
+    (∀ p, d.presolver = some p →
+        p.infbound = inf ∧ p.mfull = b.size ∧
+        ∃ keep, keepFlags (threshold inf) (newCollapsed cones) b.toList = .ok keep ∧
+          p.keep = some keep.toArray ∧ p.mreduced = keep.count true) ∧
+    (∃ bsel, d.b = ProblemData.capB bsel inf ∧ (d.presolver = none → bsel = b)) :=
+  new_captures_bound P q A b cones presolve chordal inf d h
+
+/-- [S] **capture at construction along a history**: in any history of `set_infinity` /
+`default_infinity` / constructions, the object built by the `new` that follows the prefix `pre`
+is `ProblemData.new … inf₀` with `inf₀` the bound in force after `pre`; whatever comes later
+(`post`) does not change it.  With `bound_captured_at_construction` its record, drop test and
+cap all use `inf₀`. -/
+theorem bound_history_new [Add α] [Sub α] [Mul α] [Div α] [OfNat α 0] [OfNat α 1] [LT α]
+    [DecidableLT α] [FloatLike α] (dflt : α) (pre post : List (InfOp α)) (P : Csc α) (q : Array α)
+    (A : Csc α) (b : Array α) (cones : List (ConeT α)) (presolve chordal : Bool) :
+    (InfWorld.constructed dflt (pre ++ InfOp.new :: post) P q A b cones presolve chordal)[
+        (InfWorld.run dflt pre).captured.length]?
+      = some (ProblemData.new P q A b cones presolve chordal (InfWorld.run dflt pre).current) :=
+  constructed_in_history dflt pre post P q A b cones presolve chordal
+
+/-- [S] **the chordal-decomposition switch**.  `new_collapsed` and `reduce_cones` neither create
+nor remove a PSD cone of side > 3, so (1) with `chordal_decomposition_enable = true` and no such
+cone in the user's list the constructed object is exactly the one with the switch off (the bound
+is captured the same way), and (2) with such a cone the model refuses explicitly
+(`err:chordal-not-modelled`; the decomposition is property C18's model) — after `try_presolver`
+captured the bound and never with a silently different object.  In the Rust code the
+decomposition (`chordal/*`) never reads `get_infinity()`; the cap is applied after
+`decomp_augment` to the augmented `b` with the same single read. -/
+theorem chordal_switch [Add α] [Sub α] [Mul α] [Div α] [OfNat α 0] [OfNat α 1] [LT α]
+    [DecidableLT α] [FloatLike α] (P : Csc α) (q : Array α) (A : Csc α) (b : Array α)
+    (cones : List (ConeT α)) (presolve : Bool) (inf : α) :
+    (ProblemData.hasLargePsd cones = false →
+      ProblemData.new P q A b cones presolve true inf = ProblemData.new P q A b cones presolve false inf) ∧
+    (ProblemData.hasLargePsd cones = true → ∀ d,
+      ProblemData.new P q A b cones presolve false inf = .ok d →
+      ProblemData.new P q A b cones presolve true inf = .error (.err "chordal-not-modelled")) :=
+  ⟨new_chordal_on_small P q A b cones presolve inf,
+   fun hl d h => new_chordal_on_large P q A b cones presolve inf d hl h⟩
+
+/-! ### round 3: the reduced internal problem IS `new(hand-reduced problem)` -/
+
+/-- [S] **reduce then collapse = collapse then reduce.**  Shrinking, in the user's ORIGINAL cone
+list, every cone that `new_collapsed` treats as nonnegative (`NonnegativeConeT(d)`,
+`SecondOrderConeT(1)`, `PSDTriangleConeT(1)`) to its kept count (`handReduceCones`, the hand
+reduction of the harness oracle) and collapsing afterwards gives exactly the list the solver
+builds: the collapsed list reduced by `reduce_cones` — for EVERY keep vector of the right
+length, i.e. every placement of infinite rows. -/
+theorem collapse_hand_reduce (cones : List (ConeT α)) (keep : List Bool)
+    (hk : keep.length = numel cones) :
+    newCollapsed (handReduceCones keep cones) = reduceConesWith keep (newCollapsed cones) :=
+  collapse_handReduceCones cones keep hk
+
+/-- [S] **the reduced internal problem is `new(hand-reduced problem)`.**  For a well-formed
+problem in which presolve drops at least one row, let `(A', b', cones')` be the user's
+hand-reduced problem `handReduce keep A b cones` — rows with `keep = false` deleted from `A` and
+`b`, nonnegative-like cones shrunk.  Then `DefaultProblemData::new` with presolve ON applied to
+the original problem and with presolve OFF applied to the hand-reduced one return THE SAME
+record — `P`, `q`, `A`, `b` (capped), collapsed cones, `n`, `m`, identity equilibration data,
+norm caches — except for the `presolver` field; and presolve ON applied to the hand-reduced
+problem finds nothing more to drop (idempotence).  (If no row is dropped, presolve on = presolve
+off on the same problem: `presolve_on_nothing_dropped`.) -/
+theorem internal_problem_is_hand_reduced [Add α] [Sub α] [Mul α] [Div α] [OfNat α 0] [OfNat α 1]
+    [LT α] [DecidableLT α] [FloatLike α] (P : Csc α) (q : Array α) (A : Csc α) (b : Array α)
+    (cones : List (ConeT α)) (inf : α) (keep : List Bool) (d : ProblemData α)
+    (hA : C16.Canonical A) (hAm : A.m = b.size) (hnum : numel cones = b.size) (hPsq : P.m = P.n)
+    (hk : keepFlags (threshold inf) (newCollapsed cones) b.toList = .ok keep)
+    (hc : keep.count true < b.size)
+    (hnew : ProblemData.new P q A b cones true false inf = .ok d) :
+    ∃ (A' : Csc α) (b' : Array α) (cones' : List (ConeT α)),
+      handReduce keep A b cones = .ok (A', b', cones') ∧
+      ProblemData.new P q A' b' cones' false false inf = .ok { d with presolver := none } ∧
+      ProblemData.new P q A' b' cones' true false inf = .ok { d with presolver := none } :=
+  problemdata_new_hand_reduced P q A b cones inf keep d hA hAm hnum hPsq hk hc hnew
+
+/-- [S] the degenerate case: when no row is dropped no presolver is recorded and presolve on
+equals presolve off on the same problem. -/
+theorem presolve_on_nothing_dropped [Add α] [Sub α] [Mul α] [Div α] [OfNat α 0] [OfNat α 1]
+    [LT α] [DecidableLT α] [FloatLike α] (P : Csc α) (q : Array α) (A : Csc α) (b : Array α)
+    (cones : List (ConeT α)) (inf : α) (keep : List Bool) (d : ProblemData α)
+    (hk : keepFlags (threshold inf) (newCollapsed cones) b.toList = .ok keep)
+    (hc : keep.count true = b.size)
+    (hnew : ProblemData.new P q A b cones true false inf = .ok d) :
+    d.presolver = none ∧ ProblemData.new P q A b cones false false inf = .ok d :=
+  problemdata_new_nothing_dropped P q A b cones inf keep d hk hc hnew
+
+/-! ### round 3: solve-level transparency on the whole-solver model -/
+
+section transparent
+open Clarabel.Solver
+variable [Add α] [Sub α] [Mul α] [Div α] [Neg α] [OfNat α 0] [OfNat α 1] [OfNat α 2]
+  [OfNat α 100] [OfNat α 1000] [LT α] [DecidableLT α] [LE α] [DecidableLE α] [BEq α] [FloatLike α]
+
+/-- [S] **the solver reads the `presolver` record only in `solution.post_process`** (whole-solver
+model `ClarabelModel/Solver/Solve.lean`, tied to the implementation bit for bit by C05's
+`solve.full` channel): `solve()` on a solver object and on the same object with the `presolver`
+record erased (and `solution` vectors of the reduced length) run through the SAME trajectory —
+every pass record — and end in the same internal state, verdict, iteration count, objective
+values and residuals; the latter returns the un-scaled reduced variables as `(x, s, z)`, the
+former their `reverse_presolve` image: kept row `k` ↦ entry `rank keep k`, dropped row ↦
+`(s, z) = (infbound, 0)`.  Equilibration, KKT assembly/factorisation, `default_start`, every pass
+of the loop and `info.post_process` are functions of `(P, q, A, b, cones, n, m, equilibration,
+norm caches)` and the settings only.  The length hypotheses are the length invariant of the
+iteration (`|variables.s| = |variables.z| = data.m`), needed only for `copy_from`. -/
+theorem solve_ignores_presolver_record (S : Solver α) (st : Settings α) (r : SolveResult α)
+    (pm : Unscale.PresolveMap α) (sol' : Unscale.Solution α)
+    (hr : S.solve st = .ok r) (hpm : presolveMap S.st.data = some pm)
+    (hx : sol'.x.size = S.solution.x.size)
+    (hs : r.S.st.variables.s.size = sol'.s.size) (hz : r.S.st.variables.z.size = sol'.z.size) :
+    ∃ r', Solver.solve { st := S.st.setPre none, solution := sol' } st = .ok r' ∧
+      r'.traj = r.traj ∧ r'.S.st = r.S.st.setPre none
+      ∧ r'.S.solution.status = r.S.solution.status ∧ r'.S.solution.iterations = r.S.solution.iterations
+      ∧ r'.S.solution.obj_val = r.S.solution.obj_val ∧ r'.S.solution.obj_val_dual = r.S.solution.obj_val_dual
+      ∧ r'.S.solution.r_prim = r.S.solution.r_prim ∧ r'.S.solution.r_dual = r.S.solution.r_dual
+      ∧ r'.S.solution.x = r.S.solution.x
+      ∧ r'.S.solution.s = r.S.st.variables.s ∧ r'.S.solution.z = r.S.st.variables.z
+      ∧ ∀ k, (hk : k < pm.keep.size) →
+        (pm.keep[k] = true →
+            r.S.solution.s[k]? = r'.S.solution.s[Unscale.rank pm.keep.toList k]?
+            ∧ r.S.solution.z[k]? = r'.S.solution.z[Unscale.rank pm.keep.toList k]?
+            ∧ (r'.S.solution.s[Unscale.rank pm.keep.toList k]?).isSome
+            ∧ (r'.S.solution.z[Unscale.rank pm.keep.toList k]?).isSome)
+        ∧ (pm.keep[k] = false → r.S.solution.s[k]? = some pm.infbound ∧ r.S.solution.z[k]? = some 0) := by
+  obtain ⟨r', h1, h2⟩ := solve_presolve_transparent S st r pm sol' hr hpm hx hs hz
+  exact ⟨r', h1, h2.explicit⟩
+
+/-- [S] **`presolve_transparent` — end to end.**  Let `DefaultSolver::new(P, q, A, b, cones)`
+succeed with presolve enabled (canonical `A`; the dimension asserts are part of `Solver.new`),
+let `keep` be the keep vector of `make_reduction_map` on the collapsed cone list and suppose at
+least one row is dropped.  Then for the user's HAND-REDUCED problem `(A', b', cones') =
+handReduce keep A b cones` (rows deleted, nonnegative-like cones shrunk — every placement of
+infinite rows):
+1. `DefaultSolver::new(P, q, A', b', cones')` with presolve OFF succeeds (same AMD ordering `perm`:
+   the KKT pattern is the same) and the two solver objects are EQUAL except for the `presolver`
+   record (internal data after equilibration, cones, KKT system and its factorisation, all work
+   vectors) — `internal_problem_is_hand_reduced` + the construction being a function of the
+   internal data;
+2. the row map used by `post_process` is `(keep, infbound)` with the bound captured at construction;
+3. every successful `solve()` of the presolve-on solver is matched by a `solve()` of the
+   hand-reduced one with the identical trajectory, internal state, verdict, iteration count,
+   objective values and residuals, and the same `x`;
+4. the `(s, z)` returned for the hand-reduced problem are the entries of the presolve-on `(s, z)`
+   at the kept rows, in order, and the dropped rows carry `(s, z) = (infbound, 0)`.
+Hypotheses besides the success of `new`/`solve`: `|variables.s| = |variables.z| = A'.m` after the
+solve (length invariant of the iteration, see `solve_ignores_presolver_record`). -/
+theorem presolve_transparent {P : Csc α} {q : Array α} {A : Csc α} {b : Array α}
+    {cones : List (ConeT α)} {st : Settings α} {perm : Array Nat} {S : Solver α} {keep : List Bool}
+    (hA : C16.Canonical A) (hpre : st.presolveEnable = true)
+    (hnew : Solver.new P q A b cones st perm = .ok S)
+    (hk : keepFlags (threshold st.infbound) (newCollapsed cones) b.toList = .ok keep)
+    (hc : keep.count true < b.size) :
+    ∃ (A' : Csc α) (b' : Array α) (cones' : List (ConeT α)) (S' : Solver α),
+      handReduce keep A b cones = .ok (A', b', cones') ∧
+      A'.m = keep.count true ∧ A'.n = A.n ∧
+      Solver.new P q A' b' cones' { st with presolveEnable := false } perm = .ok S' ∧
+      S'.st = S.st.setPre none ∧ S'.solution = Unscale.Solution.new A'.n A'.m ∧
+      presolveMap S.st.data = some { keep := keep.toArray, infbound := st.infbound } ∧
+      ∀ r, S.solve st = .ok r → r.S.st.variables.s.size = A'.m → r.S.st.variables.z.size = A'.m →
+        ∃ r', S'.solve { st with presolveEnable := false } = .ok r' ∧
+          r'.traj = r.traj ∧ r'.S.st = r.S.st.setPre none
+          ∧ r'.S.solution.status = r.S.solution.status
+          ∧ r'.S.solution.iterations = r.S.solution.iterations
+          ∧ r'.S.solution.obj_val = r.S.solution.obj_val
+          ∧ r'.S.solution.obj_val_dual = r.S.solution.obj_val_dual
+          ∧ r'.S.solution.r_prim = r.S.solution.r_prim ∧ r'.S.solution.r_dual = r.S.solution.r_dual
+          ∧ r'.S.solution.x = r.S.solution.x
+          ∧ ∀ k, (hk : k < keep.length) →
+            (keep[k] = true →
+                r.S.solution.s[k]? = r'.S.solution.s[Unscale.rank keep k]?
+                ∧ r.S.solution.z[k]? = r'.S.solution.z[Unscale.rank keep k]?
+                ∧ (r'.S.solution.s[Unscale.rank keep k]?).isSome
+                ∧ (r'.S.solution.z[Unscale.rank keep k]?).isSome)
+            ∧ (keep[k] = false →
+                r.S.solution.s[k]? = some st.infbound ∧ r.S.solution.z[k]? = some 0) := by
+  obtain ⟨A', b', cones', S', h1, h2, h3, h4, h5, h6, h7, h8⟩ :=
+    presolve_transparent_model hA hpre hnew hk hc
+  refine ⟨A', b', cones', S', h1, h2, h3, h4, h5, h6, h7, ?_⟩
+  intro r hr hs hz
+  obtain ⟨r', hr', hrel⟩ := h8 r hr hs hz
+  obtain ⟨e1, e2, e3, e4, e5, e6, e7, e8, e9, _, _, e12⟩ := hrel.explicit
+  refine ⟨r', hr', e1, e2, e3, e4, e5, e6, e7, e8, e9, ?_⟩
+  intro k hk
+  have := e12 k (by simpa using hk)
+  simpa using this
+
+end transparent
+
 /-! ### non-vacuity -/
 
 /-- `dropped_iff`, `reduced_problem`: rows 1 and 3 of `b = (1, 9, 2, 9)` with threshold 5 in
@@ -397,5 +598,59 @@ example : ∃ (keep : List Bool) (Pn : Csc ℝ) (d : ProblemData ℝ),
     problemdata_new_spec (⟨1, 1, #[0, 0], #[], #[]⟩ : Csc ℝ) #[1] ⟨2, 1, #[0, 2], #[0, 1], #[1, 2]⟩
       #[1, 1e30] [ConeT.nonneg 2] true 1e20 hA rfl rfl rfl
   exact ⟨keep, Pn, d, hnew, hP, hl⟩
+
+/-- `bound_captured_at_construction` / `chordal_switch` (2): the hypotheses are satisfiable — a
+problem whose only cone is `PSDTriangleConeT(4)` (10 rows, empty `A`) is constructed with the
+switch off, and `hasLargePsd` holds -/
+example : ProblemData.hasLargePsd ([ConeT.psd 4] : List (ConeT ℝ)) = true ∧
+    ∃ d, ProblemData.new (⟨1, 1, #[0, 0], #[], #[]⟩ : Csc ℝ) #[1] ⟨10, 1, #[0, 0], #[], #[]⟩
+      #[1, 1, 1, 1, 1, 1, 1, 1, 1, 1] [ConeT.psd 4] true false 1e20 = .ok d := by
+  refine ⟨by rfl, ?_⟩
+  have hA : C16.Canonical (⟨10, 1, #[0, 0], #[], #[]⟩ : Csc ℝ) := C16.check_format_canonical _ (by rfl)
+  obtain ⟨_, _, d, _, _, _, _, hnew, _⟩ :=
+    problemdata_new_spec (⟨1, 1, #[0, 0], #[], #[]⟩ : Csc ℝ) #[1] ⟨10, 1, #[0, 0], #[], #[]⟩
+      #[1, 1, 1, 1, 1, 1, 1, 1, 1, 1] [ConeT.psd 4] true 1e20 hA rfl rfl rfl
+  exact ⟨d, hnew⟩
+/-- `bound_history_new`: the second solver of `set 5; new; set 7; default; new; set 9` captures
+the default again -/
+example : (InfWorld.run (20 : Nat) ([.set 5, .new, .set 7, .default] ++ InfOp.new :: [.set 9])).captured[
+    (InfWorld.run (20 : Nat) [.set 5, .new, .set 7, .default]).captured.length]? = some 20 := by rfl
+
+section examples_round3
+open Clarabel.Solver Clarabel.Solver.PresolveExample
+
+attribute [local instance] intFloatLike in
+/-- `presolve_transparent` / `solve_ignores_presolver_record`: the hypotheses are satisfiable —
+on the instance `min x s.t. x + s₀ = 1, x + s₁ = 2·10⁶, s ≥ 0` with bound `10⁶` (scalar type `ℤ`,
+`Lemmas/PresolveSolveTransparent.lean`) `Solver.new` succeeds with presolve enabled, `A` is
+canonical, the keep vector is `[keep, drop]` (so a row is dropped).  (That `solve()` then ends
+`Solved` after two passes with `s = [0, 10⁶]`, `z = [1, 0]` was evaluated by the kernel in a
+separate process; see the comment there.) -/
+example : (∃ S, Solver.new PresolveExample.P #[1] PresolveExample.A PresolveExample.b [.nonneg 2]
+      PresolveExample.st #[0, 1] = .ok S) ∧
+    PresolveExample.st.presolveEnable = true ∧
+    keepFlags (threshold PresolveExample.st.infbound) (newCollapsed [ConeT.nonneg 2])
+      PresolveExample.b.toList = .ok [true, false] ∧
+    C16.Canonical PresolveExample.A := by
+  refine ⟨?_, rfl, by rfl, C16.check_format_canonical _ (by rfl)⟩
+  have h : (Solver.new PresolveExample.P #[1] PresolveExample.A PresolveExample.b [.nonneg 2]
+      PresolveExample.st #[0, 1]).toOption.map (fun S => S.solution.x.size) = some 1 := by
+    decide +kernel
+  cases hS : Solver.new PresolveExample.P #[1] PresolveExample.A PresolveExample.b [.nonneg 2]
+      PresolveExample.st #[0, 1] with
+  | error e => rw [hS] at h; cases h
+  | ok S => exact ⟨S, rfl⟩
+
+attribute [local instance] natFloatLike in
+/-- `internal_problem_is_hand_reduced`: the hypotheses hold on the 5×2 instance of
+`Lemmas/PresolveHandReduce.lean` (cones `[SOC 1, NN 2, Zero 1, NN 1]`, one row dropped in the
+`SOC 1`, one in the `NN 2`, a capped row in the zero cone) -/
+example : C16.Canonical toyA ∧
+    keepFlags (threshold (5 : Nat)) (newCollapsed toyCones) (#[9, 1, 9, 9, 2] : Array Nat).toList =
+      .ok [false, true, false, true, true] ∧
+    ∃ d, ProblemData.new toyP #[1, 1] toyA #[9, 1, 9, 9, 2] toyCones true false 5 = .ok d :=
+  ⟨C16.check_format_canonical _ (by rfl), by rfl, ⟨_, rfl⟩⟩
+
+end examples_round3
 
 end Clarabel.C09
